@@ -204,6 +204,23 @@ pub fn g_interp(w: &RWorld, rng: &mut Rng, idx: u64) -> (Input, &'static str) {
     let lt = *pick(rng, &[0u32, 1, 100, 499_999_999, 500_000_000, 0xffffffff]);
     // fixed stress part
     let n_deep = (N_DEEP_SHAPES * 3 + 2) as u64;
+    if (12 + n_deep..12 + n_deep + 24).contains(&idx) {
+        // a key hash in the script resolved by an UNCOMPRESSED key on the stack (p2wsh, p2sh-p2wsh, p2sh)
+        let j = (idx - 12 - n_deep) as usize;
+        let (u, form, kind) = (6 + j % 2, (j / 2) % 4, (j / 8) as u64 % 3);
+        let sc = pkh_script(w, u, form);
+        let ds = DummySat { w, keys: !0, pre: !0, lt, seq, big: vec![] };
+        let sig = ds.ecdsa().to_vec();
+        let ukey = w.w.pks[u].to_bytes();
+        let stack: Vec<Vec<u8>> = match form {
+            0 => vec![sig.clone(), ukey],
+            1 => vec![sig.clone(), sig.clone(), ukey],
+            2 => vec![sig.clone(), ukey, vec![]],
+            _ => vec![sig.clone(), ukey, sig.clone()],
+        };
+        let (spk, ssig, wit, _) = commit_script(w, rng, &sc, kind, stack);
+        return (Input::Interp { spk, sig: ssig, wit, seq, lt }, "raw-pkh-uncompressed-key");
+    }
     if (12..12 + n_deep).contains(&idx) {
         // deep nesting through every child position, committed in an output (tapscript has no size limit)
         let j = (idx - 12) as usize;
